@@ -604,7 +604,12 @@ func replayGraph(env *Env, lim *c19Limiter, cnt *c19Counters, c *c19Case) {
 	if len(c.Seqs) > 1 {
 		orders = append(orders, rev)
 	}
-	for oi, order := range orders {
+	// Go map iteration order makes Heads/HasCycle/HaviestPath visit the nodes in a different order at every
+	// call: every scenario is executed `repeat` times (a graph is rebuilt each time)
+	repeat := env.optInt("repeat", 2)
+	for rep := 0; rep < repeat*len(orders); rep++ {
+		oi := rep % len(orders)
+		order := orders[oi]
 		cl := class
 		if oi == 1 {
 			cl += "/pushed-in-reverse-order"
@@ -821,7 +826,9 @@ func recordC19(env *Env) {
 	maxlen := env.optInt("maxlen", 300)
 	if one := env.opt("replay", ""); one != "" { // re-observe the inputs of recorded events (bin/check --replay)
 		for _, ev := range loadCases[map[string]any](one) {
-			reobserve(env, ev)
+			for rep := 0; rep < env.n; rep++ { // map iteration order changes from call to call
+				reobserve(env, ev)
+			}
 		}
 		return
 	}
